@@ -422,6 +422,68 @@ def labels_not_in_module(ctx):
                     'the data parts', b.file, b.line)
 
 
+def believed_foldings(ctx):
+    """pyparsing does not run the identifier parse action for some nested
+    occurrences (the repository documents this at three work-arounds).
+    Where a parse action itself folds a name token (`n = n.lower()`), that
+    is the repository's belief that the token may arrive unfolded there; the
+    belief must then hold on *every* path to the node that takes the name
+    (Engler-style: a check present on one path and absent on a sibling
+    path)."""
+    from ..cfg import build_cfg, repo_noreturn
+    repo = ctx.repo
+    rule = 'C14.name-folded-on-every-path-of-the-action'
+    ctx.rule(rule, 'in a parse action that lower-cases a name token '
+             '(`n = n.lower()`), every path from the entry to a node '
+             'construction that receives `n` passes through the folding')
+    ncls = {c.name for c in R.node_classes(repo)}
+    n_sites = 0
+    seen = set()
+    for rule_name, f in R.parse_actions(repo):
+        if f.key in seen:
+            continue
+        seen.add(f.key)
+        folds = []
+        for st in walk_shallow(f.node):
+            if isinstance(st, ast.Assign) and len(st.targets) == 1 and \
+                    isinstance(st.targets[0], ast.Name) and \
+                    isinstance(st.value, ast.Call) and \
+                    isinstance(st.value.func, ast.Attribute) and \
+                    st.value.func.attr == 'lower' and \
+                    isinstance(st.value.func.value, ast.Name) and \
+                    st.value.func.value.id == st.targets[0].id:
+                folds.append(st)
+        if not folds:
+            continue
+        cfg = build_cfg(f.node, repo_noreturn)
+        for fold in folds:
+            name = fold.targets[0].id
+            for c in walk_shallow(f.node):
+                if not (isinstance(c, ast.Call) and dotted(c.func) in ncls
+                        and any(isinstance(a, ast.Name) and a.id == name
+                                for a in c.args)):
+                    continue
+                st = c
+                while not isinstance(st, ast.stmt):
+                    st = st._parent
+                n_sites += 1
+                construct = f'{f.file}:{f.qualname}:{dotted(c.func)}'
+                ok = True
+                for tn in (x for x in cfg.nodes if x.ast is st):
+                    if not cfg.must_pass(tn, lambda x: x.ast is fold):
+                        ok = False
+                ctx.instance(rule, construct, sample={'folded_on_all_paths':
+                                                      ok})
+                if not ok:
+                    ctx.finding(rule, construct,
+                                f'{f.qualname} lower-cases the name on some '
+                                f'paths only: {dotted(c.func)}(...) can '
+                                f'receive it as written, so a declaration '
+                                f'spelled with capitals names a different '
+                                f'variable than its uses', f.file, c.lineno)
+    ctx.floor('constructions that receive a folded name', n_sites, 2)
+
+
 def run(ctx):
     ctx.clauses = [
         'alphabetic terminals are case-insensitive',
@@ -435,6 +497,7 @@ def run(ctx):
     case_insensitive_terminals(ctx)
     canonical_comparisons(ctx)
     identifier_folding(ctx)
+    believed_foldings(ctx)
     optional_syntax(ctx)
     labels_not_in_module(ctx)
     return ('Analysis of the pyparsing grammar as data: every terminal '
